@@ -344,9 +344,10 @@ theorem c10_reject_class (env : Env) (hwf : WF env = true) (s : Spec) (t : V) (e
       exact Or.inl (isMatch _ (by simp [siteOrigins]))
   | msub x =>
     simp only [eval, tRes] at he
-    cases tGet x t with
-    | none => injection he with he; exact Or.inr (Or.inl he.symm)
+    cases hx : tGet x t with
+    | none => rw [hx] at he; simp only at he; injection he with he; exact Or.inr (Or.inl he.symm)
     | some m =>
+      rw [hx] at he; simp only at he
       split at he
       · cases he
       · injection he with he; subst he
